@@ -158,6 +158,60 @@ Definition root_json (r : root) : bytes :=
   [44;34;66;114;97;110;99;104;70;97;99;116;111;114;34;58] ++ dec_N (r_bf r) ++
   (match r_fmt r with [] => [] | f => [44;34;78;111;100;101;70;111;114;109;97;116;34;58] ++ quote f end) ++ [125].
 
+(** reading the JSON form back (encoding/json on the text [root_json] produces; the harness passes
+    every Root through its JSON text) *)
+Definition isdigit (b : N) : bool := (48 <=? b) && (b <=? 57).
+Fixpoint take_digits (bs : bytes) : bytes * bytes :=
+  match bs with
+  | b :: r => if isdigit b then let (d, rest) := take_digits r in (b :: d, rest) else ([], bs)
+  | [] => ([], [])
+  end.
+Definition p_link : bytes := [123;34;76;105;110;107;34;58].
+Definition p_size : bytes := [44;34;83;105;122;101;34;58].
+Definition p_height : bytes := [44;34;72;101;105;103;104;116;34;58].
+Definition p_bf : bytes := [44;34;66;114;97;110;99;104;70;97;99;116;111;114;34;58].
+Definition p_fmt : bytes := [44;34;78;111;100;101;70;111;114;109;97;116;34;58].
+Definition parse_root (bs : bytes) : option root :=
+  match strip_prefix p_link bs with
+  | None => None
+  | Some r1 =>
+    let lk := match strip_prefix s_null r1 with
+              | Some r2 => Some (None, r2)
+              | None => match r1 with 34 :: r2 => let (h, r3) := split_at 34 r2 in Some (Some h, r3) | _ => None end
+              end in
+    match lk with
+    | None => None
+    | Some (link, r2) =>
+      match strip_prefix p_size r2 with
+      | None => None
+      | Some r3 =>
+        let (ds, r4) := take_digits r3 in
+        match parse_N ds, strip_prefix p_height r4 with
+        | Some sz, Some r5 =>
+          let (dh, r6) := take_digits r5 in
+          match parse_N dh, strip_prefix p_bf r6 with
+          | Some hh, Some r7 =>
+            let (db, r8) := take_digits r7 in
+            match parse_N db with
+            | None => None
+            | Some bf =>
+              if bytes_eqb r8 [125] then Some (Root link sz (N.to_nat hh) bf [])
+              else match strip_prefix p_fmt r8 with
+                   | Some (34 :: r9) => let (f, r10) := split_at 34 r9 in
+                                        if bytes_eqb r10 [125] then Some (Root link sz (N.to_nat hh) bf f) else None
+                   | _ => None
+                   end
+            end
+          | _, _ => None
+          end
+        | _, _ => None
+        end
+      end
+    end
+  end.
+(* the Root as it arrives after a trip through its JSON text *)
+Definition root_via_json (r : root) : root := match parse_root (root_json r) with Some r' => r' | None => r end.
+
 (** NewRoot (pub.go:652-670) *)
 Definition default_bf : N := 16.
 Definition new_root (bf : N) (f : option nfmt) : root :=
